@@ -85,6 +85,28 @@ def many_rules(x):
 
 PROBE_VAR = 3
 
+from twosigma.memento.partition import InMemoryPartition
+
+@memento_function(cluster="probe", version="1")
+def part_root():
+    return InMemoryPartition({"a": 1, "b": 2})
+
+@memento_function(cluster="probe", version="1")
+def part_mid():
+    p_ = InMemoryPartition({"b": 20})
+    p_._merge_parent = part_root()
+    return p_
+
+@memento_function(cluster="probe", version="1")
+def part_top():
+    p_ = InMemoryPartition({"c": 30})
+    p_._merge_parent = part_mid()
+    return p_
+
+@memento_function(cluster="probe", version="1")
+def part_relay():
+    return part_top()
+
 writes = []
 def hook(ev, args):
     if ev == "open" and args and isinstance(args[0], str) and args[0].startswith(root):
@@ -274,6 +296,52 @@ def _():
     v = al_user.version()
     w = MementoFunction(fn=al_user.fn, cluster_name="pc", register_fn=False)
     return w.version() == v
+
+def _fresh_part_env(name):
+    st = FilesystemStorageBackend(path=os.path.join(root, name))
+    m.Environment.set(m.Environment(name="p", base_dir=root, repos=[m.ConfigurationRepository(name="r", clusters={"probe": m.FunctionCluster(name="probe", storage=st)})]))
+
+def _keys(p_):
+    return {k: p_.get(k) for k in p_.list_keys()}
+
+@probe("partition_inprocess_parent")
+def _():
+    _fresh_part_env("part1")
+    part_mid()                                   # its parent object comes from a first call in this process
+    _fresh_part_env("part1")
+    return part_mid.memento() is not None and _keys(part_mid()) == {"a": 1, "b": 20}
+
+@probe("partition_parent_full_index")
+def _():
+    _fresh_part_env("part2")
+    part_top()                                   # parent and grandparent are in-process objects
+    _fresh_part_env("part2")
+    return part_top.memento() is not None and _keys(part_top()) == {"a": 1, "b": 20, "c": 30}
+
+@probe("partition_relay_keeps_inherited")
+def _():
+    _fresh_part_env("part3")
+    part_top()
+    _fresh_part_env("part3")
+    part_relay()                                 # hands on a partition that was read from the store
+    _fresh_part_env("part3")
+    return part_relay.memento() is not None and _keys(part_relay()) == {"a": 1, "b": 20, "c": 30}
+
+@probe("scope_follows_memento_fn")
+def _():
+    import importlib
+    pk = os.path.join(root, "pkgs")
+    for pkg, body in (("ppa", "from twosigma.memento import memento_function\nfrom ppb import lib\n@memento_function(cluster='pc')\ndef fa(x):\n    return lib.gb(x)\n"),
+                      ("ppb", "from twosigma.memento import memento_function\ndef hb(x):\n    return x + 1\n@memento_function(cluster='pc')\ndef gb(x):\n    return hb(x)\n")):
+        os.makedirs(os.path.join(pk, pkg), exist_ok=True)
+        open(os.path.join(pk, pkg, "__init__.py"), "w").close()
+        with open(os.path.join(pk, pkg, "app.py" if pkg == "ppa" else "lib.py"), "w") as f:
+            f.write(body)
+    sys.path.insert(0, pk)
+    _cache_env("scope1", 64)
+    app = importlib.import_module("ppa.app")
+    keys = [r.key for r in app.fa.hash_rules()]
+    return any(k.startswith("Function;") and k.endswith("ppb.lib:hb") for k in keys)
 
 @probe("setconst_canonical")
 def _():
